@@ -348,3 +348,17 @@ brk('C02', P, "                for arc_args in ARC_ARGS_RE.finditer(x):", "     
 brk('C19', 'polytools.py', "    roots = np.roots(p)", "    if len(p) < 2:\n        return []\n    roots = np.roots(p)", 'polyroots treats every poly1d of order 1 as constant')
 ben('C19', 'polytools.py', "    roots = np.roots(p)", "    if not isinstance(p, np.poly1d) and len(p) < 2:\n        return []\n    roots = np.roots(p)", 'polyroots short-cut for constant coefficient sequences only')
 brk('C16', P, "    def insert(self, index, value):\n        self._segments.insert(index, value)", "    def extend(self, values):\n        self._segments.extend(values)\n        self._end = self._segments[-1].end\n\n    def insert(self, index, value):\n        self._segments.insert(index, value)", 'bulk extend that keeps the length table')
+
+# ---------------------------------------------------------------- round 9 (R16.7 degenerate paths, R17.9 option hand-over)
+brk('C16', P, "        if not isinstance(other, Path):\n            return NotImplemented\n        return not self == other\n\n    def _calc_lengths",
+    "        if not isinstance(other, Path):\n            return NotImplemented\n        if len(self) != len(other):\n            return True\n        differs = True\n        for s, o in zip(self._segments, other._segments):\n            differs = not s == o\n            if differs:\n                break\n        return differs\n\n    def _calc_lengths",
+    'Path.__ne__ by hand: two paths without segments are == and != at once')
+ben('C16', P, "        if not isinstance(other, Path):\n            return NotImplemented\n        return not self == other\n\n    def _calc_lengths",
+    "        if not isinstance(other, Path):\n            return NotImplemented\n        if len(self) != len(other):\n            return True\n        for s, o in zip(self._segments, other._segments):\n            if not s == o:\n                return True\n        return False\n\n    def _calc_lengths",
+    'Path.__ne__ by hand, correct for empty paths')
+brk('C17', 'svg_to_paths.py', "    return svg2paths(svg_file_location=svg_file_location,\n                     return_svg_attributes=return_svg_attributes,\n                     convert_circles_to_paths=convert_circles_to_paths,\n                     convert_ellipses_to_paths=convert_ellipses_to_paths,",
+    "    return svg2paths(svg_file_location=svg_file_location,\n                     return_svg_attributes=return_svg_attributes,\n                     convert_circles_to_paths=convert_ellipses_to_paths,\n                     convert_ellipses_to_paths=convert_circles_to_paths,",
+    'svg2paths2 hands the circle option to the ellipse option and vice versa (keywords)')
+ben('C17', 'svg_to_paths.py', "    return svg2paths(svg_file_location=svg_file_obj,\n                     return_svg_attributes=return_svg_attributes,\n                     convert_circles_to_paths=convert_circles_to_paths,\n                     convert_ellipses_to_paths=convert_ellipses_to_paths,\n                     convert_lines_to_paths=convert_lines_to_paths,\n                     convert_polylines_to_paths=convert_polylines_to_paths,\n                     convert_polygons_to_paths=convert_polygons_to_paths,\n                     convert_rectangles_to_paths=convert_rectangles_to_paths)",
+    "    return svg2paths(svg_file_obj, return_svg_attributes, convert_circles_to_paths, convert_ellipses_to_paths,\n                     convert_lines_to_paths, convert_polylines_to_paths, convert_polygons_to_paths,\n                     convert_rectangles_to_paths)",
+    'svgstr2paths forwards its options positionally in the right order')
